@@ -37,6 +37,20 @@ def variant_content(sp):
     return v
 
 
+def variant_middle(sp):
+    """same name and layout; only hosts in the MIDDLE of the row order differ (processes, services kept, value):
+    the first and last rows of the state tensor are identical in both scenarios"""
+    v = copy.deepcopy(sp)
+    hs = list(v["hosts"].keys())
+    for i, h in enumerate(hs):
+        if 5 <= i < len(hs) - 5:
+            d = v["hosts"][h]
+            d["proc"] = [] if d["proc"] else list(sp["processes"][:1])
+            if h not in sp["sens"]:
+                d["value"] = 0.5
+    return v
+
+
 def variant_host_order(sp):
     """the same network with the hosts listed in another order (another address -> row mapping)"""
     v = copy.deepcopy(sp)
@@ -82,6 +96,8 @@ def pairs(tier):
     ps.append(("shared_scenario_object_param_actions", [S["os_mix"], S["os_mix"]]))
     # one environment stays idle while the other makes a long run of calls
     ps.append(("long_one_sided_history", [S["twins"], S["twins"]]))
+    # two large networks (state tensors of more than 1000 cells) that differ only in the middle rows, fully observable
+    ps.append(("large_same_layout_middle_rows_differ", [S["big68"], variant_middle(S["big68"])]))
     if tier == "thorough":
         ps += [("three_envs", [S["user_only"], S["deny"], variant_content(S["deny"])]),
                ("same_scenario_bigger", [S["chain"], S["chain"]]),
@@ -143,6 +159,7 @@ def run_pair(job):
     share_object = name.startswith("shared_scenario_object")
     flat_actions = not share_object
     long_run = 160 if name.startswith("long_one_sided") else 0
+    fully_obs = name.startswith("large_")
     res = dict(name=name, machinery=None, fails=[], known=[], schedules=0, events=0, states=0, transitions=0, logs=[])
     wd = tlc.scratch_dir()
     try:
@@ -222,7 +239,7 @@ def run_pair(job):
                 rec = recs[s]
                 if kind == "create":
                     eid += 1
-                    ev = rec.create(eid, fresh_scenario(s), False, flat_actions, True)
+                    ev = rec.create(eid, fresh_scenario(s), fully_obs, flat_actions, True)
                     live[slot] = [eid, s, rec.envs[eid], 0]
                 elif kind == "reset":
                     ev = rec.reset(live[slot][0])
@@ -295,7 +312,8 @@ def check_c19(prop, tier, seed):
     v = Verdict(prop)
     t0 = time.time()
     jobs = [dict(name=n, specs=sps, depth=(5 if tier == "quick" else 6) if len(sps) == 2 else 5,
-                 max_schedules=(400 if tier == "quick" else 6000)) for n, sps in pairs(tier)]
+                 max_schedules=((400 if tier == "quick" else 6000) if not n.startswith("large_")
+                                else (30 if tier == "quick" else 300))) for n, sps in pairs(tier)]
     with mp.get_context("fork").Pool(len(jobs)) as pool:
         results = pool.map(run_pair, jobs, chunksize=1)
     kfs = {k["signature"]: k for k in common.open_findings(prop)}
